@@ -142,6 +142,32 @@ def main():
             out.write({"id": rid, "kind": "pairs", "nt": True, "n1": int(len(dof1)), "tol": 256, "K": q(K[np.ix_(dof1, dof1)], SM),
                        "M": q(Mf[np.ix_(dof1, dof1)], SM), "lam": q(job.eigenvalues, SL), "vec": [q(job.eigenvectors[:, k], S) for k in range(nm)],
                        "ext": ext, "freq": freq, "dof0": qi(dof0), "dof1": qi(dof1)})
+    # the same body analysed twice with the density changed in between: the second analysis must use the mass of the new density
+    for rep in range(1 if quick else 3):
+        rid = "redensity-%d" % rep
+        if out.want(rid):
+            mesh, f = body("hex", rng)
+            rho1, rho2 = 2.0, 0.5
+            solid = fem.SolidBody(fem.LinearElastic(E=8.0, nu=0.25), f, density=rho1)
+            b = {"left": fem.Boundary(f[0], fx=0, skip=(0, 1, 1)), "bottom": fem.Boundary(f[0], fy=0, skip=(1, 0, 1)),
+                 "back": fem.Boundary(f[0], fz=0, skip=(1, 1, 0))}
+            nm = 3
+            fem.FreeVibration(items=[solid], boundaries=b).evaluate(k=nm)
+            solid.assemble.mass()
+            solid.density = rho2
+            job = fem.FreeVibration(items=[solid], boundaries=b).evaluate(k=nm)
+            fresh = fem.SolidBody(fem.LinearElastic(E=8.0, nu=0.25), f.copy(), density=rho2)
+            K = fresh.assemble.matrix().toarray()
+            M = fresh.assemble.mass().toarray()
+            dof0, dof1 = fem.dof.partition(f, b)
+            ext, freq = [], []
+            for k in range(nm):
+                fld, fr = job.extract(k, inplace=False)
+                ext.append(q(np.concatenate([x.values.ravel() for x in fld.fields]), S))
+                freq.append(q(fr, S)[0])
+            out.write({"id": rid, "kind": "pairs", "nt": True, "n1": int(len(dof1)), "tol": 128, "K": q(K[np.ix_(dof1, dof1)], SM),
+                       "M": q(M[np.ix_(dof1, dof1)], SM), "lam": q(job.eigenvalues, SL), "vec": [q(job.eigenvectors[:, k], S) for k in range(nm)],
+                       "ext": ext, "freq": freq, "dof0": qi(dof0), "dof1": qi(dof1)})
     # several items with different elastic constants, densities and scale factors on one global field (x0):
     # K = sum_i multiplier_i K_i and M = sum_i M_i, each re-assembled from a fresh copy of the item
     for rep in range(2 if quick else 6):
